@@ -1,4 +1,6 @@
 import PewProofs.Otsu
+import PewProofs.OtsuScale
+import PewProofs.OtsuFloat
 
 /-! # C15 — property theorems (statements only depend on `PewModel.Otsu`)
 
@@ -8,7 +10,9 @@ hold for every `n ≥ 2`), `cs = centres edges`.  Hypotheses: `edges.length = hi
 the criterion - occupied end bins (`1 ≤ hist[0]`, `1 ≤ hist[n-1]`): the histogram of data with two distinct values
 has them (`end_bins_occupied`), and without them floating point produces `0/0` (`first_bin_empty_returns_first_centre`).
 
-The mechanism the theorems speak about is the NaN-carrying one (`critListN`, `argmaxN`, `otsuHistN`). -/
+The mechanism the theorems speak about is the code's: the NaN-carrying criterion (`critListN`, `argmaxN`) formed from
+the centres rescaled by a power of two (`scaledCentres`), the unscaled centre returned (`otsuHistS`).  `otsuHistN` is
+the same without the rescaling step; `rescaling_keeps_argmax` shows that the two return the same value. -/
 namespace Pew.Otsu
 
 /-! ## `np.argmax` -/
@@ -60,10 +64,10 @@ criterion over all cut points, and it is the first such bin -/
 theorem otsu_maximises (hist : List Nat) (edges : List Rat) (hn : 2 ≤ hist.length)
     (he : edges.length = hist.length + 1)
     (h0 : 1 ≤ hist.getD 0 0) (hl : 1 ≤ hist.getD (hist.length - 1) 0) :
-    ∃ i, i + 1 < hist.length ∧ otsuHistN hist edges = (centres edges).getD i 0 ∧
+    ∃ i, i + 1 < hist.length ∧ otsuHistS hist edges = (centres edges).getD i 0 ∧
       (∀ j, j + 1 < hist.length → specCrit hist (centres edges) j ≤ specCrit hist (centres edges) i) ∧
       (∀ j, j < i → specCrit hist (centres edges) j < specCrit hist (centres edges) i) := by
-  rw [otsuHistN_eq hist edges he h0 hl]
+  rw [otsuHistS_eq, otsuHistN_eq hist edges he h0 hl]
   have hcl : (centres edges).length = hist.length := by simp [he]
   have hlen := critList_length hist (centres edges) hcl
   have hne : critList hist (centres edges) ≠ [] := by
@@ -85,15 +89,109 @@ theorem otsu_maximises (hist : List Nat) (edges : List Rat) (hn : 2 ≤ hist.len
 `np.argmax` returns 0 and the first centre comes back, whatever the rest of the histogram -/
 theorem first_bin_empty_returns_first_centre (hist : List Nat) (edges : List Rat) (hn : 2 ≤ hist.length)
     (he : edges.length = hist.length + 1) (h0 : hist.getD 0 0 = 0) :
-    (critListN hist (centres edges))[0]? = some none ∧ otsuHistN hist edges = (centres edges).getD 0 0 :=
-  otsuHistN_first_empty hist edges hn he h0
+    (critListN hist (scaledCentres edges))[0]? = some none ∧ otsuHistS hist edges = (centres edges).getD 0 0 := by
+  have h := otsuHistN_first_empty hist edges hn he h0
+  refine ⟨?_, by rw [otsuHistS_eq]; exact h.2⟩
+  unfold scaledCentres
+  rw [critListN_scale, List.getElem?_map, h.1]
+  rfl
 
 /-- the threshold is a bin centre strictly between the first and the last edge (= min and max of
 the data): in particular it lies in [min, max).  (No hypothesis on the bins: also on the NaN path.) -/
 theorem is_centre_in_range (hist : List Nat) (edges : List Rat) (hn : 2 ≤ hist.length)
     (he : edges.length = hist.length + 1) (hp : edges.Pairwise (· < ·)) :
-    edges.getD 0 0 < otsuHistN hist edges ∧ otsuHistN hist edges < edges.getD hist.length 0 :=
-  otsuHistN_in_range hist edges hn he hp
+    edges.getD 0 0 < otsuHistS hist edges ∧ otsuHistS hist edges < edges.getD hist.length 0 := by
+  rw [otsuHistS_eq]
+  exact otsuHistN_in_range hist edges hn he hp
+
+/-! ## the rescaling step (`np.frexp` of the larger outer edge, `np.ldexp(bin_centers, -exponent)`) -/
+
+/-- `np.frexp`: for `q ≠ 0` the exponent `e` brackets the magnitude, `2^(e−1) ≤ |q| < 2^e`, and it is the only
+integer that does; multiplying `q` by `2^k` adds `k` to it -/
+theorem frexp_exponent (q : Rat) (hq : q ≠ 0) :
+    (pow2 (frexpExp q - 1) ≤ absQ q ∧ absQ q < pow2 (frexpExp q)) ∧
+    (∀ e : Int, pow2 (e - 1) ≤ absQ q → absQ q < pow2 e → frexpExp q = e) ∧
+    (∀ k : Int, frexpExp (pow2 k * q) = frexpExp q + k) := by
+  simp only [pow2_eq_zpow, absQ_eq_abs]
+  exact ⟨frexpExp_spec q hq, fun e h1 h2 => frexpExp_unique q e h1 h2,
+    fun k => by have := frexpExp_pow2_mul k q hq; rwa [pow2_eq_zpow] at this⟩
+
+example : frexpExp 1 = 1 ∧ frexpExp (3/4) = 0 ∧ frexpExp (-5) = 3 ∧ frexpExp (1/1024) = -9 ∧ frexpExp 0 = 0 ∧
+    pow2 (-3) = 1/8 ∧ pow2 10 = 1024 := by decide +kernel
+
+/-- **The rescaling step does not change the result.**  The criterion formed from the centres divided by `2^e` is
+`4^(−e)` times the criterion of the centres themselves, NaN where that is NaN; `np.argmax` is the same index; the value
+returned is the centre at that index.  For every histogram and all edges, the NaN path included. -/
+theorem rescaling_keeps_argmax (hist : List Nat) (edges : List Rat) :
+    critListN hist (scaledCentres edges) =
+      (critListN hist (centres edges)).map (Option.map (pow2 (-(scaleExp edges)) ^ 2 * ·)) ∧
+    argmaxN (critListN hist (scaledCentres edges)) = argmaxN (critListN hist (centres edges)) ∧
+    otsuHistS hist edges = otsuHistN hist edges := by
+  refine ⟨by unfold scaledCentres; rw [critListN_scale], ?_, otsuHistS_eq hist edges⟩
+  unfold scaledCentres
+  rw [critListN_scale, argmaxN_scale _ (by have := pow2_pos (-(scaleExp edges)); positivity)]
+
+/-- **Power-of-two scaling, from the histogram on, with no hypothesis on the bins.**  Multiplying the edges by `2^k`
+(what `np.histogram` returns for `2^k · x`, short of over/underflow) leaves the rescaled centres - the operands of the
+criterion - exactly as they were: the criterion array is the same array, `np.argmax` the same index, and the returned
+centre is `2^k` times the other one.  In floating point the operands are the same bit patterns, which is why the
+implementation satisfies the clause bit for bit. -/
+theorem pow2_scaling_exact (k : Int) (hist : List Nat) (edges : List Rat) (hM : outerMag edges ≠ 0) :
+    scaleExp (edges.map (pow2 k * ·)) = scaleExp edges + k ∧
+    scaledCentres (edges.map (pow2 k * ·)) = scaledCentres edges ∧
+    critListN hist (scaledCentres (edges.map (pow2 k * ·))) = critListN hist (scaledCentres edges) ∧
+    otsuHistS hist (edges.map (pow2 k * ·)) = pow2 k * otsuHistS hist edges :=
+  ⟨scaleExp_pow2 k edges hM, scaledCentres_pow2 k edges hM, by rw [scaledCentres_pow2 k edges hM],
+    otsuHistS_pow2 k hist edges hM⟩
+
+/-- increasing edges have a positive outer magnitude (the hypothesis of `pow2_scaling_exact`), every rescaled centre
+has magnitude below one - its square cannot overflow - and the larger outer edge is at least one half in these units -/
+theorem scaled_centres_bounded (edges : List Rat) (hp : edges.Pairwise (· < ·)) (hn : 2 ≤ edges.length) :
+    0 < outerMag edges ∧
+    (∀ i, i + 1 < edges.length → absQ ((scaledCentres edges).getD i 0) < 1) ∧
+    1 / 2 ≤ pow2 (-(scaleExp edges)) * outerMag edges ∧ pow2 (-(scaleExp edges)) * outerMag edges < 1 := by
+  simp only [absQ_eq_abs]
+  exact ⟨outerMag_pos edges hp hn, scaledCentres_bounded edges hp hn⟩
+
+example : scaleExp [0, 1, 2, 3] = 2 ∧ scaledCentres [0, 1, 2, 3] = [1/8, 3/8, 5/8] ∧
+    scaledCentres ([0, 1, 2, 3].map (pow2 511 * ·)) = [1/8, 3/8, 5/8] ∧
+    otsuHistS [1, 1, 1] ([0, 1, 2, 3].map (pow2 511 * ·)) = pow2 511 * (1/2) := by decide +kernel
+
+/-! ## the criterion in floating point: "attains the maximum up to rounding", with the rounding budget made explicit
+
+`critListR fl` is `otsu` from `hist * centers` on, every arithmetic result passed through the rounding function `fl`
+(`np.cumsum`: sequential sums; class weights: exact integers).  `critListB u η` runs the same program on pairs (exact
+value, bound on |computed − exact|).  The only thing assumed of `fl` is the standard model of binary floating point,
+`|fl x − x| ≤ u·|x| + η` (binary64, round to nearest: `u = 2^-53`, `η = 2^-1075`; no overflow: the rescaled centres are
+below one in magnitude, `scaled_centres_bounded`).  Where a class is empty the float code produces NaN; these statements
+then speak of the `x/0 = 0` reading of both sides (data with two distinct values never gets there: `end_bins_occupied`). -/
+
+/-- **Every entry of the float criterion is within its budget of the exact between-class criterion** -/
+theorem float_criterion_within_budget (fl : Rat → Rat) (u η : Rat) (hu : 0 ≤ u)
+    (hfl : ∀ x, absQ (fl x - x) ≤ u * absQ x + η)
+    (hist : List Nat) (edges : List Rat) (he : edges.length = hist.length + 1) (i : Nat) (hi : i + 1 < hist.length) :
+    absQ ((critListR fl hist (scaledCentresR fl edges)).getD i 0 - specCrit hist (scaledCentres edges) i)
+        ≤ ((critListB u η hist (scaledCentresB u η edges)).getD i (0, 0)).2 ∧
+    specCrit hist (scaledCentres edges) i = pow2 (-(scaleExp edges)) ^ 2 * specCrit hist (centres edges) i := by
+  simp only [absQ_eq_abs] at hfl ⊢
+  exact ⟨float_criterion_within_budget' fl u η hu hfl hist edges he i hi, specCrit_scaled_units hist edges i⟩
+
+/-- **The cut the float code returns attains the maximum up to the budget**: `k = np.argmax` of the float criterion
+is a cut, the returned value is the float centre at `k`, and no cut `j` beats it by more than the budgets of the two
+cuts: `crit j ≤ crit k + budget k + budget j` (exact criterion, in units of `4^exponent`) -/
+theorem float_argmax_within_budget (fl : Rat → Rat) (u η : Rat) (hu : 0 ≤ u)
+    (hfl : ∀ x, absQ (fl x - x) ≤ u * absQ x + η)
+    (hist : List Nat) (edges : List Rat) (hn : 2 ≤ hist.length) (he : edges.length = hist.length + 1) :
+    argmaxFirst (critListR fl hist (scaledCentresR fl edges)) + 1 < hist.length ∧
+    otsuHistR fl hist edges = (centresR fl edges).getD (argmaxFirst (critListR fl hist (scaledCentresR fl edges))) 0 ∧
+    ∀ j, j + 1 < hist.length →
+      specCrit hist (scaledCentres edges) j ≤
+        specCrit hist (scaledCentres edges) (argmaxFirst (critListR fl hist (scaledCentresR fl edges)))
+        + ((critListB u η hist (scaledCentresB u η edges)).getD
+            (argmaxFirst (critListR fl hist (scaledCentresR fl edges))) (0, 0)).2
+        + ((critListB u η hist (scaledCentresB u η edges)).getD j (0, 0)).2 := by
+  simp only [absQ_eq_abs] at hfl
+  exact float_argmax_within_budget' fl u η hu hfl hist edges hn he
 
 /-! ## runs of empty bins: which maximiser comes back -/
 
@@ -115,7 +213,12 @@ theorem empty_run_ties (hist : List Nat) (cs : List Rat) (i : Nat) :
 theorem returned_is_first_of_run (hist : List Nat) (edges : List Rat) (hn : 2 ≤ hist.length)
     (he : edges.length = hist.length + 1)
     (h0 : 1 ≤ hist.getD 0 0) (hl : 1 ≤ hist.getD (hist.length - 1) 0) :
-    classStart hist (argmaxN (critListN hist (centres edges))) = argmaxN (critListN hist (centres edges)) := by
+    classStart hist (argmaxN (critListN hist (scaledCentres edges))) =
+      argmaxN (critListN hist (scaledCentres edges)) := by
+  have hsc : argmaxN (critListN hist (scaledCentres edges)) = argmaxN (critListN hist (centres edges)) := by
+    unfold scaledCentres
+    rw [critListN_scale, argmaxN_scale _ (by have := pow2_pos (-(scaleExp edges)); positivity)]
+  rw [hsc]
   have hcl : (centres edges).length = hist.length := by simp [he]
   rw [critListN_eq_some hist _ hcl h0 hl, argmaxN_map_some]
   have hlen := critList_length hist (centres edges) hcl
@@ -269,8 +372,8 @@ theorem scale_invariant (c : Rat) (hc : 0 < c) (xs : List Rat) (n : Nat) (h : mi
 theorem scale_invariant_hist (c : Rat) (hc : 0 < c) (hist : List Nat) (edges : List Rat)
     (he : edges.length = hist.length + 1)
     (h0 : 1 ≤ hist.getD 0 0) (hl : 1 ≤ hist.getD (hist.length - 1) 0) :
-    otsuHistN hist (edges.map (c * ·)) = c * otsuHistN hist edges := by
-  rw [otsuHistN_eq hist _ (by simpa using he) h0 hl, otsuHistN_eq hist edges he h0 hl]
+    otsuHistS hist (edges.map (c * ·)) = c * otsuHistS hist edges := by
+  rw [otsuHistS_eq, otsuHistS_eq, otsuHistN_eq hist _ (by simpa using he) h0 hl, otsuHistN_eq hist edges he h0 hl]
   exact otsuHist_scale c hc hist edges he
 
 /-- exact uniform binning: the first and the last bin are never empty (they hold min and max), both class weights are
@@ -321,7 +424,8 @@ def exEdges : List Rat := [0, 1, 2, 3, 4]
 example : 2 ≤ exHist.length ∧ exEdges.length = exHist.length + 1 ∧ exEdges.Pairwise (· < ·) ∧
     1 ≤ exHist.getD 0 0 ∧ 1 ≤ exHist.getD (exHist.length - 1) 0 := by
   decide +kernel
-example : critListN exHist (centres exEdges) = [some (121/2), some (121/2), some 49] ∧ otsuHistN exHist exEdges = 1/2 := by
+example : critListN exHist (centres exEdges) = [some (121/2), some (121/2), some 49] ∧ otsuHistN exHist exEdges = 1/2 ∧
+    otsuHistS exHist exEdges = 1/2 ∧ critListN exHist (scaledCentres exEdges) = [some (121/128), some (121/128), some (49/64)] := by
   decide +kernel
 example : critList exHist (centres exEdges) ≠ [] := by decide +kernel
 -- an empty first bin: NaN, the first centre
@@ -343,6 +447,40 @@ example : otsuData ([1, 3, 1, 3, 3].map ((8 : Rat) * ·)) 4 = 8 * (5/4) := by de
 example : ([1, 2, 3, 4, 5] : List Rat).Pairwise (· < ·) ∧ ([1, 2, 3, 4, 5] : List Rat).getD 0 0 ∈ ([1, 2, 1, 4, 5, 5] : List Rat) ∧
     ([1, 2, 3, 4, 5] : List Rat).getD 4 0 ∈ ([1, 2, 1, 4, 5, 5] : List Rat) ∧
     histogramE [1, 2, 3, 4, 5] [1, 2, 1, 4, 5, 5] = [2, 1, 0, 3] ∧ otsuEdges [1, 2, 3, 4, 5] [1, 2, 1, 4, 5, 5] = 5/2 := by
+  decide +kernel
+
+/-! ## the float criterion -/
+
+/-- with exact arithmetic (`fl = id`, `u = η = 0`) the budget is zero and the float program is the mechanism -/
+example : critListR id exHist (scaledCentresR id exEdges) = [121/128, 121/128, 49/64] ∧
+    (critListB 0 0 exHist (scaledCentresB 0 0 exEdges)).map Prod.snd = [0, 0, 0] := by decide +kernel
+
+/-- a rounding function that meets the hypothesis: rounding down to multiples of 1/1024 (`u = 0`, `η = 1/1024`) -/
+def exFl (x : Rat) : Rat := ((x * 1024).floor : Rat) / 1024
+
+example : ∀ x, absQ (exFl x - x) ≤ 0 * absQ x + 1 / 1024 := by
+  intro x
+  simp only [absQ_eq_abs]
+  unfold exFl
+  have h1 := Rat.floor_le (x * 1024)
+  have h2 := Rat.lt_floor_add_one (x * 1024)
+  push_cast at h2
+  rw [abs_le]
+  constructor
+  · rw [← sub_nonneg]
+    have : ((x * 1024).floor : Rat) / 1024 - x - -(0 * |x| + 1 / 1024) = (((x * 1024).floor : Rat) + 1 - x * 1024) / 1024 := by ring
+    rw [this]
+    apply div_nonneg <;> linarith
+  · rw [← sub_nonneg]
+    have : 0 * |x| + 1 / 1024 - (((x * 1024).floor : Rat) / 1024 - x) = (1 + (x * 1024 - ((x * 1024).floor : Rat))) / 1024 := by ring
+    rw [this]
+    apply div_nonneg <;> linarith
+
+/-- ... and the float criterion it produces on the example histogram, with its budget: every entry is within it -/
+example : critListR exFl exHist (scaledCentresR exFl exEdges) = [121/128, 121/128, 783/1024] ∧
+    (critListB 0 (1/1024) exHist (scaledCentresB 0 (1/1024) exEdges)).map Prod.fst = [121/128, 121/128, 49/64] ∧
+    (critListB 0 (1/1024) exHist (scaledCentresB 0 (1/1024) exEdges)).all
+      (fun p => decide (1/1024 ≤ p.2 ∧ p.2 ≤ 1/16)) = true := by
   decide +kernel
 
 /-! ## `np.histogram` in double precision: Lean's `Float` operations are those of `Float.Model` (IEEE-754 binary64),
